@@ -100,3 +100,12 @@ pub use self::transform::Translation;
 
 /// Storage container for low level point data.
 pub type RawValues = Vec<RecordValue>;
+
+/// Verification hooks: re-exports of the crate-private page layer for an external test harness.
+/// Only compiled when building with `--cfg e57_verif`.
+#[cfg(e57_verif)]
+#[doc(hidden)]
+pub mod verif_hooks {
+    pub use crate::paged_reader::PagedReader;
+    pub use crate::paged_writer::PagedWriter;
+}
